@@ -19,8 +19,9 @@ type pageKey struct {
 
 func pick[T any](rng *rand.Rand, xs ...T) T { return xs[rng.Intn(len(xs))] }
 
-// RandomStack draws a stack shape and geometry.  flavour "" = anything valid that
-// avoids TLB latency 1 (W2); "nomc" has no MMU cache, "mc" has one, "gmmu-remote"
+// RandomStack draws a stack shape and geometry.  flavour "" = anything valid (TLB
+// latencies include 1: the single-stage pipeline defect W2 is repaired in the
+// repository); "nomc" has no MMU cache, "mc" has one, "gmmu-remote"
 // has a GMMU, "lat1" has one TLB with latency 1, "unaligned" has a TLB with an
 // agent attached to it.
 func RandomStack(rng *rand.Rand, name string, flavour string) Config {
@@ -32,7 +33,7 @@ func RandomStack(rng *rand.Rand, name string, flavour string) Config {
 	}
 	for i := 0; i < ntlb; i++ {
 		cfg.TLBs = append(cfg.TLBs, TLBCfg{Sets: pick(rng, 1, 2, 4), Ways: pick(rng, 1, 2, 4), MSHR: pick(rng, 1, 2, 4),
-			Latency: pick(rng, 2, 2, 3, 4, 6), Width: pick(rng, 1, 2, 4), Buf: pick(rng, 1, 2, 4)})
+			Latency: pick(rng, 1, 2, 2, 3, 4, 6), Width: pick(rng, 1, 2, 4), Buf: pick(rng, 1, 2, 4)})
 	}
 	if flavour == "lat1" {
 		if len(cfg.TLBs) == 0 {
@@ -74,7 +75,7 @@ func RandomStack(rng *rand.Rand, name string, flavour string) Config {
 	k := 0
 	for _, lv := range direct {
 		top := !hasAT && lv == direct[0]
-		if top || rng.Intn(3) == 0 || (flavour == "unaligned" && lv == "L1") {
+		if top || rng.Intn(2) == 0 || (flavour == "unaligned" && lv == "L1") {
 			cfg.Agents = append(cfg.Agents, AgentCfg{Name: fmt.Sprintf("T%d", k), At: lv, Window: pick(rng, 1, 2, 4, 8), Buf: pick(rng, 1, 2, 4)})
 			k++
 		}
